@@ -195,6 +195,24 @@ CHECKS["C03"] = (
     "DESIGN.md 3 (C03)",
 )
 
+CHECKS["C04"] = (
+    "Coq proof: curve identity (Q, any poly_trend / offsets, abstract Keplerian), MathComp completing-the-square for every x + determinant lemma "
+    "(all dimensions), Bayes identity over the reals; per-input certificates (exact bigQ + certified intervals) on the implementation's orbit RVs, "
+    "ln_unmarginalized_likelihood and marginal_ln_likelihood for posterior draws and hand-built rows",
+    "Proved: rv_same_curve -- with samples.t_ref = the data's reference epoch the sampler's design-matrix model K g(2 pi (t-t_ref)/P - M0) + (1, "
+    "survey indicators, dt, dt^2..) . (v0, offsets, v1..) equals the reconstructed orbit (Kepler term + Horner polynomial at t_ref) plus the "
+    "observation's own survey offset, for every poly_trend and number of offsets; chi^2_lik(x) + chi^2_prior(x) = chi^2_post(x) + chi^2_marg for "
+    "EVERY x over any field and all dimensions; det B det A = det C_s det Lambda; over R those give ln N(marg) = ln N(lik) + ln N(prior) - ln N(post). "
+    "Partial: the algebraic premises are proved over MathComp fields and are premises of the real-number theorem (no MathComp structure on R "
+    "installed). Per run Coq evaluates check_bayes on every generated problem for a posterior draw returned by rejection_sample and a hand-built row: "
+    "get_orbit(i).radial_velocity(t) (+ own offset) = M x; ln_unmarginalized_likelihood = Gaussian data term with sigma^2 + s^2; the identity on the "
+    "implementation's own two log-likelihood numbers; the exact rational identities; trend_M rows = (1, indicators, dt^i); samples.t_ref = data t_ref.",
+    "Trusted: as C01; twobody's KeplerOrbit/PolynomialRVTrend evaluate the elements they are given (values at the data epochs are table inputs); "
+    "for survey k>=1 the harness subtracts the row's own offset before calling ln_unmarginalized_likelihood; tolerances 1e-9 (curve), 1e-8 (ll), "
+    "1e-6 (1+|ll|) (identity).",
+    "DESIGN.md 3 (C04)",
+)
+
 NOT_YET = {}
 
 
